@@ -216,6 +216,10 @@ class InfoRef:
         if self.has(attr):
             return False
         vals = [self.val(o) for o in operands]
+        if attr in ("postscriptUnderlineThickness", "postscriptUnderlinePosition"):
+            # a single product of an integral unitsPerEm: the value is exact, and rounded like an
+            # explicit value would be (halves up)
+            return any(not is_integral(v) for v in vals)
         return any(not is_integral(v) for v in vals) or not is_integral(self.val(attr))
 
     def _int(self, attr, operands=()):
